@@ -151,7 +151,7 @@ func declaredIn(n ast.Node) map[string]bool {
 
 func checkC17(c *Ctx) {
 	r := c.R
-	r.Explain = "Static race-freedom argument by shared-state inventory over the emitted Go code (reconstructed from the generator's syntax tree; the server runtime is type-checked, holed units are parsed in every variant with two services/methods). R17a every package-level variable of every emitted unit is read-only after initialisation, or written only inside the function literal handed to (*sync.Once).Do and read after that Do call. R17b client struct fields are stored only by the constructor and by option closures; RPC methods neither store to the receiver nor mutate (directly or through an alias) a map field of the receiver; serverConfiguration is written only by options. R17c per-request state is local: no function literal that serves a request (the BindingMiddleware and genericHandler handlers) assigns, resets or writes (effect summaries) a variable captured from the enclosing registration-time scope. R17d route registration contains no closure over the per-method variables it reassigns. R17e the header/parameter slices shared by all requests of a route are never stored through. Not decided: linearizability of results, races inside user handlers/hooks and inside libraries (protovalidate.Validator, http.Client, ServeMux, math/rand are documented safe for concurrent use)."
+	r.Explain = "Static race-freedom argument by shared-state inventory over the emitted Go code (reconstructed from the generator's syntax tree; the server runtime is type-checked, holed units are parsed in every variant with two services/methods). R17a every package-level variable of every emitted unit is read-only after initialisation, or written only inside the function literal handed to (*sync.Once).Do and read after that Do call. R17b client struct fields are stored only by the constructor and by option closures; RPC methods neither store to the receiver nor mutate (directly or through an alias) a map field of the receiver; serverConfiguration is written only by options. R17g the closure returned by an option constructor does not store a map or slice built once in the constructor into the per-call or per-client state (options are reusable values). R17c per-request state is local: no function literal that serves a request (the BindingMiddleware and genericHandler handlers) assigns, resets or writes (effect summaries) a variable captured from the enclosing registration-time scope. R17d route registration contains no closure over the per-method variables it reassigns. R17e the header/parameter slices shared by all requests of a route are never stored through. Not decided: linearizability of results, races inside user handlers/hooks and inside libraries (protovalidate.Validator, http.Client, ServeMux, math/rand are documented safe for concurrent use)."
 	r.Trusted = []string{"sync.Once.Do happens-before its return for every caller", "protovalidate.Validator, http.Client, http.ServeMux, math/rand top-level functions are safe for concurrent use"}
 	r.Rule("R17a", "package-level variables of emitted units are read-only or once-initialised", 8)
 	r.Rule("R17b", "struct state: client fields and server configuration are written only during construction/options", 6)
@@ -269,6 +269,31 @@ func checkC17(c *Ctx) {
 				}
 			}
 			if okAll {
+				// inside the initialising function every read comes after the Do call (the only happens-before edge)
+				for _, d := range uf.f.Decls {
+					fd, ok := d.(*ast.FuncDecl)
+					if !ok || fd.Body == nil || fd.Name.Name != u.writes[0].Fn {
+						continue
+					}
+					var doPos, doEnd token.Pos
+					ast.Inspect(fd.Body, func(n ast.Node) bool {
+						if call, ok := n.(*ast.CallExpr); ok && strings.HasSuffix(types.ExprString(call.Fun), "Once.Do") && doPos == token.NoPos {
+							doPos, doEnd = call.Pos(), call.End()
+						}
+						return true
+					})
+					local := declaredIn(fd)
+					ast.Inspect(fd.Body, func(n ast.Node) bool {
+						if id, ok := n.(*ast.Ident); ok && id.Name == name && !local[name] && doPos != token.NoPos && id.Pos() < doPos {
+							okAll = false
+							why = fmt.Sprintf("read in %s before the sync.Once.Do call (%s): an unsynchronised fast path races with the initialising write", fd.Name.Name, genPos(uf, id.Pos()))
+						}
+						return true
+					})
+					_ = doEnd
+				}
+			}
+			if okAll {
 				// reads outside the initialising function?
 				initFn := u.writes[0].Fn
 				for _, d := range uf.f.Decls {
@@ -293,6 +318,98 @@ func checkC17(c *Ctx) {
 				r.Bad("R17a", key, genPos(uf, pos), "package-level variable of the generated package is written while requests are being served: "+why+" — concurrent requests race on it and one request's data can leak into another", nil)
 			}
 		}
+	}
+
+	// ---- R17g option constructors: the returned closure may run once per call (options are reusable values);
+	// a map/slice built in the constructor and stored by the closure into the per-call/per-client state is
+	// shared, mutable, by every call the option is used for
+	{
+		r.Rule("R17g", "option closures do not store a map or slice that was built once in the option constructor into per-call state", 1)
+		seen := map[string]bool{}
+		nClosures := 0
+		for _, uf := range files {
+			for _, d := range uf.f.Decls {
+				fd, ok := d.(*ast.FuncDecl)
+				if !ok || fd.Body == nil {
+					continue
+				}
+				// reference-typed locals created in the constructor body, outside any function literal
+				built := map[string]bool{}
+				var lits []*ast.FuncLit
+				ast.Inspect(fd.Body, func(n ast.Node) bool {
+					if fl, ok := n.(*ast.FuncLit); ok {
+						lits = append(lits, fl)
+						return false
+					}
+					if as, ok := n.(*ast.AssignStmt); ok && as.Tok == token.DEFINE && len(as.Lhs) == len(as.Rhs) {
+						for i, rhs := range as.Rhs {
+							id, ok := as.Lhs[i].(*ast.Ident)
+							if !ok {
+								continue
+							}
+							switch x := ast.Unparen(rhs).(type) {
+							case *ast.CompositeLit:
+								switch x.Type.(type) {
+								case *ast.MapType, *ast.ArrayType:
+									built[id.Name] = true
+								}
+							case *ast.CallExpr:
+								if f, ok := x.Fun.(*ast.Ident); ok && f.Name == "make" {
+									built[id.Name] = true
+								}
+							}
+						}
+					}
+					return true
+				})
+				// only constructors: the function returns one of its literals
+				returnsLit := false
+				ast.Inspect(fd.Body, func(n ast.Node) bool {
+					if ret, ok := n.(*ast.ReturnStmt); ok {
+						for _, e := range ret.Results {
+							if _, ok := ast.Unparen(e).(*ast.FuncLit); ok {
+								returnsLit = true
+							}
+						}
+					}
+					return true
+				})
+				if !returnsLit {
+					continue
+				}
+				for _, fl := range lits {
+					nClosures++
+					shadow := map[string]bool{}
+					for _, p := range fl.Type.Params.List {
+						for _, n := range p.Names {
+							shadow[n.Name] = true
+						}
+					}
+					ast.Inspect(fl.Body, func(n ast.Node) bool {
+						as, ok := n.(*ast.AssignStmt)
+						if !ok || len(as.Lhs) != len(as.Rhs) {
+							return true
+						}
+						for i, rhs := range as.Rhs {
+							id, ok := ast.Unparen(rhs).(*ast.Ident)
+							if !ok || !built[id.Name] || shadow[id.Name] {
+								continue
+							}
+							if sel, ok := as.Lhs[i].(*ast.SelectorExpr); ok {
+								k := fmt.Sprintf("*%s %s: closure stores constructor-built %s into %s", uf.root.Suffix, holeFree(fd.Name.Name), id.Name, holeFree(types.ExprString(sel)))
+								if !seen[k] {
+									seen[k] = true
+									r.Bad("R17g", k, genPos(uf, as.Pos()), fmt.Sprintf("the option constructor builds %s once and the closure it returns stores that same map/slice into %s: every call made with the same option value (and every later option of that call, which writes through it) shares one mutable map — concurrent calls race on it and one call's headers leak into another", id.Name, holeFree(types.ExprString(sel))), nil)
+								}
+							}
+						}
+						return true
+					})
+				}
+			}
+		}
+		r.OKd("R17g", "option constructors of the emitted Go units", "", map[string]any{"closures": nClosures, "violations": len(seen)})
+		r.Count("option closures inspected", nClosures)
 	}
 
 	// ---- R17b client struct + server configuration
